@@ -11,7 +11,7 @@ import (
 // C01: decoding equals the published EOTF for every code, every entry point.
 func C01(tier string) {
 	r := ev.Begin("C01", tier, "exploration")
-	r.Rule("complete enumeration: all 256 8-bit and all 65,536 16-bit codes x 4 spaces x {From8Bit, From16Bit, ColorFromNRGBA, ColorFromRGBA, ColorFromEncodedColor on NRGBA/NRGBA64/RGBA64, LineariseColor} with the code placed in every channel position; distinct = (space, width, code) triples whose decoded value lies strictly inside (0,1)")
+	r.Rule("complete enumeration: all 256 8-bit and all 65,536 16-bit codes x 4 spaces x 2 passes (second pass after every space has built its lazy tables) x {From8Bit, From16Bit, ColorFromNRGBA, ColorFromRGBA, ColorFromEncodedColor on NRGBA/NRGBA64/RGBA64, LineariseColor} with the code placed in every channel position; distinct = (space, width, code) triples whose decoded value lies strictly inside (0,1)")
 	r.Assume("reference EOTFs are the float64 formulas of IEC 61966-2-1, Adobe RGB (1998) and ISO 22028-2 (ROMM)")
 	r.Assume("the 16-bit tables are built lazily once per process; this run observes them after a single-goroutine first use (first-use races are C11)")
 	const tol = 3e-7
@@ -30,130 +30,146 @@ func C01(tier string) {
 		}
 	}
 
+	// first-use order of this process: every 16-bit *encode* table is built
+	// before any 16-bit decode (C02's main process uses the opposite order)
 	for si := range Spaces {
-		sp := &Spaces[si]
-		if sp.From8 != nil {
-			var prev float32 = -1
-			for v := 0; v < 256; v++ {
-				got := sp.From8(uint8(v))
-				r.Eval(1)
-				chk(sp, "From8Bit", v, 255, got)
-				if !(got > prev) {
-					r.Violate(sp.Name+"/From8Bit/monotone", fmt.Sprintf("%s From8Bit(%d)=%g not > From8Bit(%d)=%g", sp.Name, v, got, v-1, prev), bad{sp.Name, "From8Bit", v, float64(got), float64(prev)}, nil)
-				}
-				prev = got
-				if w := sp.From16(uint16(257 * v)); math.Float32bits(w) != math.Float32bits(got) {
-					r.Violate(sp.Name+"/8v16", fmt.Sprintf("%s From8Bit(%d)=%g != From16Bit(%d)=%g", sp.Name, v, got, 257*v, w), bad{sp.Name, "8v16", v, float64(got), float64(w)}, nil)
-				}
-				if got > 0 && got < 1 {
-					r.DistinctN(1)
-				}
-			}
-			if sp.From8(0) != 0 || sp.From8(255) != 1 {
-				r.Violate(sp.Name+"/From8Bit/ends", fmt.Sprintf("%s From8Bit(0)=%g From8Bit(255)=%g, want exactly 0 and 1", sp.Name, sp.From8(0), sp.From8(255)), nil, nil)
-			}
-			prev = -1
-			for v := 0; v < 65536; v++ {
-				got := sp.From16(uint16(v))
-				r.Eval(1)
-				chk(sp, "From16Bit", v, 65535, got)
-				if !(got > prev) {
-					r.Violate(sp.Name+"/From16Bit/monotone", fmt.Sprintf("%s From16Bit(%d)=%g not > From16Bit(%d)=%g", sp.Name, v, got, v-1, prev), bad{sp.Name, "From16Bit", v, float64(got), float64(prev)}, nil)
-				}
-				prev = got
-				if got > 0 && got < 1 {
-					r.DistinctN(1)
-				}
-			}
-			if sp.From16(0) != 0 || sp.From16(65535) != 1 {
-				r.Violate(sp.Name+"/From16Bit/ends", fmt.Sprintf("%s From16Bit(0)=%g From16Bit(65535)=%g, want exactly 0 and 1", sp.Name, sp.From16(0), sp.From16(65535)), nil, nil)
-			}
+		if Spaces[si].To16 != nil {
+			_ = Spaces[si].To16(0.5)
 		}
-
-		// 8-bit constructors, value in every channel position
-		var prevR float32 = -1
-		for v := 0; v < 256; v++ {
-			g, b := (v+85)%256, (v+170)%256
-			c3, a := sp.FromNRGBA(color.NRGBA{R: uint8(v), G: uint8(g), B: uint8(b), A: 255})
-			r.Eval(1)
-			chk(sp, "ColorFromNRGBA.R", v, 255, c3.R)
-			chk(sp, "ColorFromNRGBA.G", g, 255, c3.G)
-			chk(sp, "ColorFromNRGBA.B", b, 255, c3.B)
-			if a != 1 {
-				r.Violate(sp.Name+"/ColorFromNRGBA/alpha", fmt.Sprintf("%s ColorFromNRGBA opaque alpha=%g", sp.Name, a), nil, nil)
-			}
-			if !(c3.R > prevR) {
-				r.Violate(sp.Name+"/ColorFromNRGBA/monotone", fmt.Sprintf("%s ColorFromNRGBA R(%d)=%g not > previous %g", sp.Name, v, c3.R, prevR), nil, nil)
-			}
-			prevR = c3.R
-			if sp.From8 == nil && c3.R > 0 && c3.R < 1 {
-				r.DistinctN(1)
-			}
-			c4, a4 := sp.FromRGBA(color.RGBA{R: uint8(v), G: uint8(g), B: uint8(b), A: 255})
-			r.Eval(1)
-			chk(sp, "ColorFromRGBA.R", v, 255, c4.R)
-			chk(sp, "ColorFromRGBA.G", g, 255, c4.G)
-			chk(sp, "ColorFromRGBA.B", b, 255, c4.B)
-			if a4 != 1 {
-				r.Violate(sp.Name+"/ColorFromRGBA/alpha", fmt.Sprintf("%s ColorFromRGBA opaque alpha=%g", sp.Name, a4), nil, nil)
-			}
-			c5, _ := sp.FromEncodedColor(color.NRGBA{R: uint8(v), G: uint8(g), B: uint8(b), A: 255})
-			r.Eval(1)
-			chk(sp, "ColorFromEncodedColor(NRGBA).R", v, 255, c5.R)
-			chk(sp, "ColorFromEncodedColor(NRGBA).G", g, 255, c5.G)
-			chk(sp, "ColorFromEncodedColor(NRGBA).B", b, 255, c5.B)
-			if c3 != c4 || c3 != c5 {
-				r.Violate(sp.Name+"/constructors-agree8", fmt.Sprintf("%s opaque (%d,%d,%d): NRGBA %v RGBA %v generic %v differ", sp.Name, v, g, b, c3, c4, c5), nil, nil)
-			}
-			if v == 0 && (c3.R != 0) || v == 255 && (c3.R != 1) {
-				r.Violate(sp.Name+"/ColorFromNRGBA/ends", fmt.Sprintf("%s ColorFromNRGBA code %d -> %g", sp.Name, v, c3.R), nil, nil)
-			}
-		}
-
-		// 16-bit constructors
-		prevR = -1
-		for v := 0; v < 65536; v++ {
-			g, b := (v+21845)%65536, (v+43690)%65536
-			for k, col := range []color.Color{
-				color.NRGBA64{R: uint16(v), G: uint16(g), B: uint16(b), A: 65535},
-				color.RGBA64{R: uint16(v), G: uint16(g), B: uint16(b), A: 65535},
-			} {
-				c6, a6 := sp.FromEncodedColor(col)
-				r.Eval(1)
-				name := [...]string{"ColorFromEncodedColor(NRGBA64)", "ColorFromEncodedColor(RGBA64)"}[k]
-				chk(sp, name+".R", v, 65535, c6.R)
-				chk(sp, name+".G", g, 65535, c6.G)
-				chk(sp, name+".B", b, 65535, c6.B)
-				if a6 != 1 {
-					r.Violate(sp.Name+"/"+name+"/alpha", fmt.Sprintf("%s %s opaque alpha=%g", sp.Name, name, a6), nil, nil)
-				}
-				if k == 0 {
-					if !(c6.R > prevR) {
-						r.Violate(sp.Name+"/"+name+"/monotone", fmt.Sprintf("%s %s R(%d)=%g not > previous %g", sp.Name, name, v, c6.R, prevR), nil, nil)
+		_ = Spaces[si].Encode(color.RGBA64{R: 1, G: 2, B: 3, A: 65535})
+	}
+	// two passes: the second one observes every space after all the others have
+	// built their tables (state reached from elsewhere, not only the initial one)
+	for pass := 0; pass < 2; pass++ {
+		for si := range Spaces {
+			sp := &Spaces[si]
+			if sp.From8 != nil {
+				var prev float32 = -1
+				for v := 0; v < 256; v++ {
+					got := sp.From8(uint8(v))
+					r.Eval(1)
+					chk(sp, "From8Bit", v, 255, got)
+					if !(got > prev) {
+						r.Violate(sp.Name+"/From8Bit/monotone", fmt.Sprintf("%s From8Bit(%d)=%g not > From8Bit(%d)=%g", sp.Name, v, got, v-1, prev), bad{sp.Name, "From8Bit", v, float64(got), float64(prev)}, nil)
 					}
-					prevR = c6.R
-					if sp.From16 == nil && c6.R > 0 && c6.R < 1 {
+					prev = got
+					if w := sp.From16(uint16(257 * v)); math.Float32bits(w) != math.Float32bits(got) {
+						r.Violate(sp.Name+"/8v16", fmt.Sprintf("%s From8Bit(%d)=%g != From16Bit(%d)=%g", sp.Name, v, got, 257*v, w), bad{sp.Name, "8v16", v, float64(got), float64(w)}, nil)
+					}
+					if pass == 0 && got > 0 && got < 1 {
 						r.DistinctN(1)
 					}
-					if v == 0 && c6.R != 0 || v == 65535 && c6.R != 1 {
-						r.Violate(sp.Name+"/"+name+"/ends", fmt.Sprintf("%s %s code %d -> %g", sp.Name, name, v, c6.R), nil, nil)
+				}
+				if sp.From8(0) != 0 || sp.From8(255) != 1 {
+					r.Violate(sp.Name+"/From8Bit/ends", fmt.Sprintf("%s From8Bit(0)=%g From8Bit(255)=%g, want exactly 0 and 1", sp.Name, sp.From8(0), sp.From8(255)), nil, nil)
+				}
+				prev = -1
+				for v := 0; v < 65536; v++ {
+					got := sp.From16(uint16(v))
+					r.Eval(1)
+					chk(sp, "From16Bit", v, 65535, got)
+					if !(got > prev) {
+						r.Violate(sp.Name+"/From16Bit/monotone", fmt.Sprintf("%s From16Bit(%d)=%g not > From16Bit(%d)=%g", sp.Name, v, got, v-1, prev), bad{sp.Name, "From16Bit", v, float64(got), float64(prev)}, nil)
+					}
+					prev = got
+					if pass == 0 && got > 0 && got < 1 {
+						r.DistinctN(1)
 					}
 				}
-				lin := sp.Linearise(col)
-				r.Eval(1)
-				for ci, pair := range [3][2]float64{{float64(lin.R), float64(v)}, {float64(lin.G), float64(g)}, {float64(lin.B), float64(b)}} {
-					want := 65535 * sp.Curve.EOTF(pair[1]/65535)
-					if d := math.Abs(pair[0] - want); !(d <= 0.5+65535*tol+1e-9) {
-						r.Violate(sp.Name+"/LineariseColor", fmt.Sprintf("%s LineariseColor channel %d of code %d = %v, 65535*EOTF = %.4f", sp.Name, ci, int(pair[1]), pair[0], want), nil, nil)
-					}
-				}
-				if lin.A != 65535 {
-					r.Violate(sp.Name+"/LineariseColor/alpha", fmt.Sprintf("%s LineariseColor opaque alpha=%d", sp.Name, lin.A), nil, nil)
+				if sp.From16(0) != 0 || sp.From16(65535) != 1 {
+					r.Violate(sp.Name+"/From16Bit/ends", fmt.Sprintf("%s From16Bit(0)=%g From16Bit(65535)=%g, want exactly 0 and 1", sp.Name, sp.From16(0), sp.From16(65535)), nil, nil)
 				}
 			}
+
+			// 8-bit constructors, value in every channel position
+			var prevR float32 = -1
+			for v := 0; v < 256; v++ {
+				g, b := (v+85)%256, (v+170)%256
+				c3, a := sp.FromNRGBA(color.NRGBA{R: uint8(v), G: uint8(g), B: uint8(b), A: 255})
+				r.Eval(1)
+				chk(sp, "ColorFromNRGBA.R", v, 255, c3.R)
+				chk(sp, "ColorFromNRGBA.G", g, 255, c3.G)
+				chk(sp, "ColorFromNRGBA.B", b, 255, c3.B)
+				if a != 1 {
+					r.Violate(sp.Name+"/ColorFromNRGBA/alpha", fmt.Sprintf("%s ColorFromNRGBA opaque alpha=%g", sp.Name, a), nil, nil)
+				}
+				if !(c3.R > prevR) {
+					r.Violate(sp.Name+"/ColorFromNRGBA/monotone", fmt.Sprintf("%s ColorFromNRGBA R(%d)=%g not > previous %g", sp.Name, v, c3.R, prevR), nil, nil)
+				}
+				prevR = c3.R
+				if pass == 0 && sp.From8 == nil && c3.R > 0 && c3.R < 1 {
+					r.DistinctN(1)
+				}
+				c4, a4 := sp.FromRGBA(color.RGBA{R: uint8(v), G: uint8(g), B: uint8(b), A: 255})
+				r.Eval(1)
+				chk(sp, "ColorFromRGBA.R", v, 255, c4.R)
+				chk(sp, "ColorFromRGBA.G", g, 255, c4.G)
+				chk(sp, "ColorFromRGBA.B", b, 255, c4.B)
+				if a4 != 1 {
+					r.Violate(sp.Name+"/ColorFromRGBA/alpha", fmt.Sprintf("%s ColorFromRGBA opaque alpha=%g", sp.Name, a4), nil, nil)
+				}
+				c5, _ := sp.FromEncodedColor(color.NRGBA{R: uint8(v), G: uint8(g), B: uint8(b), A: 255})
+				r.Eval(1)
+				chk(sp, "ColorFromEncodedColor(NRGBA).R", v, 255, c5.R)
+				chk(sp, "ColorFromEncodedColor(NRGBA).G", g, 255, c5.G)
+				chk(sp, "ColorFromEncodedColor(NRGBA).B", b, 255, c5.B)
+				if c3 != c4 || c3 != c5 {
+					r.Violate(sp.Name+"/constructors-agree8", fmt.Sprintf("%s opaque (%d,%d,%d): NRGBA %v RGBA %v generic %v differ", sp.Name, v, g, b, c3, c4, c5), nil, nil)
+				}
+				if v == 0 && (c3.R != 0) || v == 255 && (c3.R != 1) {
+					r.Violate(sp.Name+"/ColorFromNRGBA/ends", fmt.Sprintf("%s ColorFromNRGBA code %d -> %g", sp.Name, v, c3.R), nil, nil)
+				}
+			}
+
+			// 16-bit constructors
+			prevR = -1
+			for v := 0; v < 65536; v++ {
+				g, b := (v+21845)%65536, (v+43690)%65536
+				for k, col := range []color.Color{
+					color.NRGBA64{R: uint16(v), G: uint16(g), B: uint16(b), A: 65535},
+					color.RGBA64{R: uint16(v), G: uint16(g), B: uint16(b), A: 65535},
+				} {
+					c6, a6 := sp.FromEncodedColor(col)
+					r.Eval(1)
+					name := [...]string{"ColorFromEncodedColor(NRGBA64)", "ColorFromEncodedColor(RGBA64)"}[k]
+					chk(sp, name+".R", v, 65535, c6.R)
+					chk(sp, name+".G", g, 65535, c6.G)
+					chk(sp, name+".B", b, 65535, c6.B)
+					if a6 != 1 {
+						r.Violate(sp.Name+"/"+name+"/alpha", fmt.Sprintf("%s %s opaque alpha=%g", sp.Name, name, a6), nil, nil)
+					}
+					if k == 0 {
+						if !(c6.R > prevR) {
+							r.Violate(sp.Name+"/"+name+"/monotone", fmt.Sprintf("%s %s R(%d)=%g not > previous %g", sp.Name, name, v, c6.R, prevR), nil, nil)
+						}
+						prevR = c6.R
+						if pass == 0 && sp.From16 == nil && c6.R > 0 && c6.R < 1 {
+							r.DistinctN(1)
+						}
+						if v == 0 && c6.R != 0 || v == 65535 && c6.R != 1 {
+							r.Violate(sp.Name+"/"+name+"/ends", fmt.Sprintf("%s %s code %d -> %g", sp.Name, name, v, c6.R), nil, nil)
+						}
+					}
+					lin := sp.Linearise(col)
+					r.Eval(1)
+					for ci, pair := range [3][2]float64{{float64(lin.R), float64(v)}, {float64(lin.G), float64(g)}, {float64(lin.B), float64(b)}} {
+						want := 65535 * sp.Curve.EOTF(pair[1]/65535)
+						if d := math.Abs(pair[0] - want); !(d <= 0.5+65535*tol+1e-9) {
+							r.Violate(sp.Name+"/LineariseColor", fmt.Sprintf("%s LineariseColor channel %d of code %d = %v, 65535*EOTF = %.4f", sp.Name, ci, int(pair[1]), pair[0], want), nil, nil)
+						}
+					}
+					if lin.A != 65535 {
+						r.Violate(sp.Name+"/LineariseColor/alpha", fmt.Sprintf("%s LineariseColor opaque alpha=%d", sp.Name, lin.A), nil, nil)
+					}
+				}
+			}
+			if pass == 0 {
+				continue
+			}
+			r.Sample(map[string]interface{}{"space": sp.Name, "entry": "ColorFromEncodedColor(NRGBA64)", "code": 32768,
+				"decoded": func() float32 { c, _ := sp.FromEncodedColor(color.NRGBA64{R: 32768, A: 65535}); return c.R }(), "reference": sp.Curve.EOTF(32768.0 / 65535)})
 		}
-		r.Sample(map[string]interface{}{"space": sp.Name, "entry": "ColorFromEncodedColor(NRGBA64)", "code": 32768,
-			"decoded": func() float32 { c, _ := sp.FromEncodedColor(color.NRGBA64{R: 32768, A: 65535}); return c.R }(), "reference": sp.Curve.EOTF(32768.0 / 65535)})
 	}
+	r.Set("passes", 2)
 	r.Finish()
 }
